@@ -134,6 +134,27 @@ def check_retry_table():
     return [_rep(key, obls)]
 
 
+def _replay_table(ob, seed):
+    """the failed cell of the retry table IS a concrete call of the real function: run it again natively"""
+    from cirq_google.cloud import quantum
+    from cirq_google.engine import stream_manager as sm
+
+    if not ob.concrete or "code" not in ob.concrete:
+        return None
+    code, kind = ob.concrete["code"], ob.concrete["current"]
+    req = quantum.QuantumRunStreamRequest(**{kind: {"create_quantum_program_and_job": quantum.CreateQuantumProgramAndJobRequest, "create_quantum_job": quantum.CreateQuantumJobRequest,
+                                                    "get_quantum_result": quantum.GetQuantumResultRequest}[kind]()})
+    try:
+        got = sm._get_retry_request_or_raise(quantum.StreamError(code=quantum.StreamError.Code[code], message="m"), req, "CPJ", "CJ", "GR")
+    except Exception as ex:
+        got = f"raise {type(ex).__name__}"
+    return dict(args=dict(error_code=code, current_request=kind, create_program_and_job="CPJ", create_job="CJ", get_result="GR"), failed="retry-table",
+                clause=f"_get_retry_request_or_raise returned {got}; {ob.detail}")
+
+
+REPLAYERS = {FS + ":_get_retry_request_or_raise": _replay_table}
+
+
 def check_demux():
     """ResponseDemux on every event sequence of length <= 3 over {subscribe a/b, publish a/b/c, publish_exception}: exhaustive"""
     import asyncio
